@@ -12,6 +12,7 @@ mod exec;
 mod execb;
 mod fileid;
 mod gram;
+mod intro;
 mod introdepth;
 mod lex;
 mod limits;
@@ -62,6 +63,7 @@ fn main() {
         "rt-typed" => rt::typed(rest),
         "resp-record" => resp::record(rest),
         "smith-record" => smith::record(rest),
+        "intro-record" => intro::record(rest),
         "async-replay" => asyncx::replay(rest),
         "exec-record" => exec::record(rest),
         "coerce-replay" => coerce::replay(rest),
